@@ -43,6 +43,7 @@ def param_paths(e):
 
 
 def check(ctx):
+    expiry_enforced(ctx)
     R = "C14/config-to-listener"
     sb = ctx.body(r"^passage::start::\{closure#0\}$", rule=R)
     builders = listener_builders(ctx)
@@ -257,3 +258,21 @@ def check(ctx):
                   reason="after the deadline/await some path ends the task without stream.shutdown().await on the connection's stream",
                   detail="every path after the timeout awaits shutdown() on the connection's stream")
     # default: connection_timeout initialised from DEFAULT_CONNECTION_TIMEOUT in Listener::new (documented default)
+
+
+def expiry_enforced(ctx):
+    """the configured expiry governs acceptance: the cookie clauses of C02 that involve auth_cookie_expiry and the clock are
+    re-evaluated here (same rule code, C14 keys), so that a change to *when* or *in which unit* the clock is read is
+    reported under the property that promises "cookies older than the configured expiry are refused" """
+    from .. import core
+    from . import c02
+    sub = core.Ctx(ctx.prop, ctx.prog, ctx.tier, ctx.config)
+    c02.check(sub)
+    wanted = ("C02/accept-guards/not-expired", "C02/accept-guards/now-is-current", "C02/accept-guards/timestamp-unit-agrees")
+    seen = 0
+    for o in sub.obligations:
+        if o["key"] in wanted:
+            seen += 1
+            key = "C14/expiry-enforced/" + o["key"].split("/")[-1]
+            ctx.check(o["ok"], "C14/expiry-enforced", key, o["site"], reason=o["detail"], detail=o["detail"])
+    ctx.floor("C14/expiry-enforced", "expiry clauses evaluated (not-expired, now-is-current, timestamp-unit-agrees)", seen, 3)
